@@ -17,7 +17,7 @@ class C07(ModelCheck):
             'lists, and the close event of each. non-trivial: >= 3 events and >= 2 windows; distinct = distinct (program, schedule)')
     assumptions = ['timestamps are non-decreasing per key (they are read from the virtual clock)',
                    'empty windows (opened eagerly after a closing item) are implementation detail and ignored on both sides']
-    probe_names = ('numpy_timestamps', 'datetime_gap>=1day', 'gap==inactive', 'gap==active', 'equal_timestamps', 'consecutive_closing', 'closing_last',
+    probe_names = ('include_flag_not_bool', 'numpy_timestamps', 'datetime_gap>=1day', 'gap==inactive', 'gap==active', 'equal_timestamps', 'consecutive_closing', 'closing_last',
                    'expiring_and_closing', 'datetime', 'under_group_by', 'both_none')
 
     def gen_program(self, rng, tier):
@@ -27,7 +27,7 @@ class C07(ModelCheck):
         node = {'op': 'time_split',
                 'active': rng.choice([None, None, 3, 5, 8]),
                 'inactive': rng.choice([None, None, 1, 2, 3]),
-                'closing': closing, 'include': rng.random() < 0.5,
+                'closing': closing, 'include': rng.choice([True, True, False, False, 'one', 'zero', 'np_true']) if closing else rng.random() < 0.5,
                 'dt': rng.choice([False, False, False, 'seconds', 'hours', 'hours', 'days', 'days', 'np_int', 'np_float', 'np_dt64'])}
         inner = g.pipeline(St('rec', closing), Flags(deny=('time_split', 'progress')), rng.choice([0, 0, 1]), rng.choice([1, 1, 2]))
         node['inner'] = inner
@@ -45,6 +45,8 @@ class C07(ModelCheck):
             p['under_group_by'] += 1
         if ts.get('dt'):
             p['datetime'] += 1
+        if ts.get('include') not in (True, False):
+            p['include_flag_not_bool'] += 1
         if str(ts.get('dt')).startswith('np_'):
             p['numpy_timestamps'] += 1
         if ts.get('dt') == 'days' or (ts.get('dt') == 'hours' and any(b['t'] - a['t'] >= 24 for a, b in zip(case['events'], case['events'][1:]))):
